@@ -24,12 +24,29 @@ structure Binding (P : Proto) where
   /-- fields whose values are addresses (or otherwise not modelled): the operation kind and field
       must match, the values are not compared -/
   opaqueFld : Fld → Bool := fun _ => false
+  /-- minimal declared memory order the protocol relies on for the operation pending at a local
+      state (the call site), in `std::memory_order` numbering (0 relaxed, 1 consume, 2 acquire,
+      3 release, 4 acq_rel, 5 seq_cst); 0 = no requirement. For a failed CAS the failure order is
+      checked against `reqFailOrder`. A trace event whose declared order is weaker is rejected (the
+      SC proofs presuppose these orders; see C10). -/
+  reqOrder : P.L → Nat := fun _ => 0
+  reqFailOrder : P.L → Nat := fun _ => 0
 
 /-- signed normalisation modulo 2^bits -/
 def norm (bits : Nat) (x : Int) : Int :=
   let m : Int := (2 : Int) ^ bits
   let y := x % m
   if y ≥ m / 2 then y - m else y
+
+/-- is the declared order `actual` at least as strong as `required`? (acquire and release are incomparable) -/
+def orderOK (required actual : Nat) : Bool :=
+  match required with
+  | 0 => true
+  | 1 => actual = 1 ∨ actual = 2 ∨ actual = 4 ∨ actual = 5
+  | 2 => actual = 2 ∨ actual = 4 ∨ actual = 5
+  | 3 => actual = 3 ∨ actual = 4 ∨ actual = 5
+  | 4 => actual = 4 ∨ actual = 5
+  | _ => actual = 5
 
 def bitsToList (mask : Int) : List Nat :=
   (List.range 63).filter fun i => (mask.toNat >>> i) % 2 = 1
@@ -100,12 +117,15 @@ def acceptLine {P : Proto} (B : Binding P) (s : State P) (toks : List String) :
         | [] => .error "bad ret"
       else
         match rest with
-        | [fieldS, _mo, operandS, resultS, auxS] =>
+        | [fieldS, moS, operandS, resultS, auxS] =>
+          let mo : Nat := moS.toNat?.getD 0
           match operandS.toInt?, resultS.toInt?, auxS.toInt? with
           | some operand, some result, some aux =>
             if kind = "fence" then
               match P.op (s.loc t) with
-              | some .fence => match exec s (.step t) with
+              | some .fence =>
+                if ¬ orderOK (B.reqOrder (s.loc t)) mo then .error s!"fence declared with memory order {mo}, protocol requires {B.reqOrder (s.loc t)}" else
+                match exec s (.step t) with
                 | some s' => .ok (runSilent B s' t 64)
                 | none => .error "fence step failed"
               | o => .error s!"impl fence, model pending {showOp o}"
@@ -140,7 +160,15 @@ def acceptLine {P : Proto} (B : Binding P) (s : State P) (toks : List String) :
                   | none => .error s!"model step not enabled for {reprStr o}"
                 let bad (why : String) : Except String (State P) :=
                   .error s!"{why}: impl {kind} {fieldS} operand={operand} result={result} aux={aux}; model pending {reprStr o} mem={s.mem f}"
+                let need : Nat := if kind = "cas_fail" then B.reqFailOrder (s.loc t) else B.reqOrder (s.loc t)
+                if (kind = "load" ∨ kind = "store" ∨ kind = "xchg" ∨ kind = "fadd" ∨ kind = "fsub" ∨ kind = "for" ∨ kind = "fand"
+                    ∨ kind = "cas_ok" ∨ kind = "cas_fail") ∧ ¬ orderOK need mo then
+                  bad s!"declared memory order {mo} weaker than the required {need}"
+                else
                 match kind, o with
+                | "pload", .load g => if g = f then stepIt else bad "plain load"
+                | "pstore", .store g _ => if g = f then stepIt else bad "plain store"
+                | "pload", .xchg g _ => if g = f then stepIt else bad "plain move-out"
                 | "load", .load g =>
                   if g = f ∧ same result (s.mem f) then stepIt else bad "load"
                 | "store", .store g v =>
